@@ -337,3 +337,58 @@ Proof.
   rewrite (collect_rules_stream _ _ _ _ Hs Hr) by (pose proof (rule_stream_length _ _ _ _ Hr); lia).
   reflexivity.
 Qed.
+
+(* ---- DeleteRules: list the rules, delete each; the first failing delete is the verdict ---- *)
+(* the deletes are answered in turn: errno 0 for each rule of [ok], then optionally errno e <> 0 for the next one *)
+Inductive dels_answered : N -> list str -> list revent -> list revent -> Prop :=
+| da_nil n sc : dels_answered n [] sc sc
+| da_cons n r rs sc mid rest : (n + 1) mod 2^32 <> 0 -> answers ((n + 1) mod 2^32) 0 sc mid -> dels_answered ((n + 1) mod 2^32) rs mid rest ->
+    dels_answered n (r :: rs) sc rest.
+
+Definition del_wire (r : str) : wire := (AUDIT_DEL_RULE, REQ_ACK, r).
+
+Lemma ack_cmd_verdict s w ty d errno rest : sfaults w = [] -> next_seq s <> 0 -> (0 <= errno < 2^31)%Z -> answers (next_seq s) errno (rscript w) rest ->
+  ack_cmd s w ty d = ({| pending := pending s; clear_pid := clear_pid s; closed := closed s; nseq := next_seq s |}, with_script w rest,
+                      (if Z.eqb errno 0 then None else Some (EErrno errno)), [(ty, REQ_ACK, d)]).
+Proof.
+  intros Hf Hs He Ha. unfold ack_cmd, do_send. rewrite Hf. fold (next_seq s).
+  pose proof (ack_verdict _ _ _ _ Hs He Ha) as HV. destruct (reply (next_seq s) (rscript w)) as [r rest']. destruct HV as [HV ->]. rewrite HV. reflexivity.
+Qed.
+
+Theorem delete_all_ok : forall rules s w sent rest, sfaults w = [] -> dels_answered (nseq s) rules (rscript w) rest ->
+  exists s', delete_all s w rules sent = (s', with_script w rest, None, sent ++ map del_wire rules).
+Proof.
+  induction rules as [|r rs IH]; intros s w sent rest Hf Hd; inversion Hd; subst; cbn [delete_all map].
+  - exists s. rewrite app_nil_r. destruct w; unfold with_script; cbn in *. subst. reflexivity.
+  - fold (next_seq s) in *. rewrite (ack_cmd_verdict s w AUDIT_DEL_RULE r 0%Z mid Hf) by (auto; lia). cbn [Z.eqb].
+    destruct (IH {| pending := pending s; clear_pid := clear_pid s; closed := closed s; nseq := next_seq s |} (with_script w mid) (sent ++ [(AUDIT_DEL_RULE, REQ_ACK, r)]) rest) as (s' & Hs'); auto.
+    exists s'. rewrite Hs'. unfold with_script. cbn. rewrite <- app_assoc. reflexivity.
+Qed.
+
+Theorem delete_all_first_error : forall ok s w sent r later mid rest errno, sfaults w = [] -> dels_answered (nseq s) ok (rscript w) mid ->
+  (0 < errno < 2^31)%Z ->
+  let n := fold_left (fun a (_ : str) => (a + 1) mod 2^32) ok (nseq s) in
+  (n + 1) mod 2^32 <> 0 -> answers ((n + 1) mod 2^32) errno mid rest ->
+  exists s', delete_all s w (ok ++ r :: later) sent = (s', with_script w rest, Some (EErrno errno), sent ++ map del_wire ok ++ [del_wire r]).
+Proof.
+  induction ok as [|o ok IH]; intros s w sent r later mid rest errno Hf Hd He n Hn Ha; inversion Hd; subst; subst n; cbn [app delete_all map fold_left] in *.
+  - fold (next_seq s) in *. rewrite (ack_cmd_verdict s w AUDIT_DEL_RULE r errno rest Hf Hn) by (auto; lia).
+    replace (Z.eqb errno 0) with false by (symmetry; apply Z.eqb_neq; lia). eexists. reflexivity.
+  - fold (next_seq s) in *. rewrite (ack_cmd_verdict s w AUDIT_DEL_RULE o 0%Z mid0 Hf) by (auto; lia). cbn [Z.eqb].
+    destruct (IH {| pending := pending s; clear_pid := clear_pid s; closed := closed s; nseq := next_seq s |} (with_script w mid0) (sent ++ [(AUDIT_DEL_RULE, REQ_ACK, o)]) r later mid rest errno) as (s' & Hs'); auto.
+    exists s'. rewrite Hs'. unfold with_script. cbn. rewrite <- !app_assoc. reflexivity.
+Qed.
+
+(* DeleteRules as a whole: the listing succeeds and every delete is acknowledged with 0 -> the count of rules *)
+Theorem delete_rules_verdict s w mid rs mid2 rest : sfaults w = [] -> next_seq s <> 0 ->
+  answers (next_seq s) 0 (rscript w) mid -> rule_stream (next_seq s) rs mid mid2 -> dels_answered (next_seq s) rs mid2 rest ->
+  result_of (snd (cstep s w ODeleteRules)) = RCount (N.of_nat (length rs)).
+Proof.
+  intros Hf Hs Ha Hr Hd. cbn [cstep]. unfold get_rules, do_send. rewrite Hf. fold (next_seq s).
+  pose proof (ack_verdict (next_seq s) 0%Z (rscript w) mid Hs ltac:(lia) Ha) as HV. destruct (reply (next_seq s) (rscript w)) as [r rest']. destruct HV as [HV ->].
+  rewrite HV. cbn [Z.eqb].
+  rewrite (collect_rules_stream _ _ _ _ Hs Hr) by (pose proof (rule_stream_length _ _ _ _ Hr); lia).
+  cbn [rev app].
+  destruct (delete_all_ok rs {| pending := pending s; clear_pid := clear_pid s; closed := closed s; nseq := next_seq s |} (with_script w mid2) [(AUDIT_LIST_RULES, REQ_ACK, [])] rest) as (s' & Hs'); auto.
+  rewrite Hs'. reflexivity.
+Qed.
